@@ -329,7 +329,7 @@ class kLeastAbsErrors(pathmodel.AbstractPathModelDAG):
             if (u, v) in self.edges_to_ignore:
                 continue
 
-            f_u_v = data[self.flow_attr]
+            f_u_v = float(data[self.flow_attr])
 
             # We encode that edge_vars[(u,v,i)] * self.path_weights_vars[(i)] = self.pi_vars[(u,v,i)],
             # assuming self.w_max is a bound for self.path_weights_vars[(i)]
@@ -392,7 +392,7 @@ class kLeastAbsErrors(pathmodel.AbstractPathModelDAG):
             if (u, v) in self.edges_to_ignore:
                 continue
 
-            f_u_v = data[self.flow_attr]
+            f_u_v = float(data[self.flow_attr])
 
             # Encoding the error on the edge (u, v) as the difference between 
             # the flow value of the edge and the sum of the weights of the paths that go through it (pi variables)
